@@ -657,10 +657,12 @@ class Exec:
             et = self.prog.globals.get(name)
             if h is not None:
                 v = h(self, name, et)
-            elif et is not None:
-                v = self.default_global(name, et)
             else:
-                raise Unsupported('global ' + name)
+                if et is None and pt is not None and pt in self.prog.types:
+                    et = self.prog.types[pt]['elem']
+                if et is None:
+                    raise Unsupported('global ' + name)
+                v = self.default_global(name, et)
             g = self.globals[name] = Cell(v, tag=name)
         return Ptr(g, 'v')
 
@@ -674,7 +676,9 @@ class Exec:
             return o
         if d['k'] in ('basic', 'struct', 'array'):
             return self.zero(et)
-        return Opaque('global', name=name)
+        if d['k'] == 'map':
+            return MapObj()    # package-level maps of this code base are initialised to empty literals
+        return GlobalOpaque(name)
 
     # ---- calls
     def find_intrinsic(self, name):
